@@ -51,7 +51,7 @@ def determinism(tier, seed, ids):
         a = _digests(mod, seed, n, 16)
         b = _digests(mod, seed, n, 3)
         env = dict(os.environ, PYTHONHASHSEED="12345", VERIF_WORKERS="8")
-        p = subprocess.run([sys.executable, os.path.join(core.VERIF_DIR, "sim", "cli.py"), "selftest", "--seed", str(seed),
+        p = subprocess.run([sys.executable, os.path.join(core.VERIF_DIR, "sim", "cli.py"), "--seed", str(seed), "selftest",
                             "_digests", pid, str(n)], env=env, capture_output=True, text=True, cwd=core.VERIF_DIR)
         c = None
         for line in p.stdout.splitlines():
